@@ -1,7 +1,7 @@
 (* C03 -- proto: Unmarshal(Marshal(v)) == v, Size(v) == len(Marshal(v)), Marshal never fails.
    Model: Proto/Model.v (hand-written, tied by correspondence) over the MACHINE-TRANSLATED wire
    primitives of Generated/ProtoGen.v. *)
-From Verif Require Import Base.GoInt Proto.Ext Generated.ProtoGen Proto.Model Proto.PrimSpec Proto.Spec Proto.EncProofs Proto.RoundTrip.
+From Verif Require Import Base.GoInt Proto.Ext Generated.ProtoGen Proto.Model Proto.PrimSpec Proto.Spec Proto.EncProofs Proto.RoundTrip Proto.RoundTripInj.
 
 (* Marshal succeeds and returns exactly Size(v) bytes, for every value of the universe *)
 Theorem marshal_never_fails : marshal_never_fails_statement.
@@ -20,3 +20,12 @@ Proof. exact RoundTrip.ptr_empty_refuted. Qed.
 (* ... and the naive statement without normalising both sides *)
 Theorem roundtrip_naive_refuted : ~ roundtrip_naive_statement.
 Proof. exact RoundTrip.roundtrip_statement_false. Qed.
+
+(* the round trip with its fuel made explicit: a function of the bytes and the type only (0 for the empty encoding,
+   len + codec depth + 1 otherwise) *)
+Theorem roundtrip_explicit_fuel : roundtrip_explicit_fuel_statement.
+Proof. exact RoundTripInj.roundtrip_explicit_fuel. Qed.
+
+(* Marshal is injective up to nil-versus-empty: two values of the universe with the same bytes are the same value *)
+Theorem marshal_injective : marshal_injective_statement.
+Proof. exact RoundTripInj.marshal_injective. Qed.
